@@ -51,7 +51,7 @@ def gen_conc(seed, idx):
             ops.append({"op": "tick"})
         sched = [rng.randint(0, 7) for _ in range(rng.randint(4, 40))]
         step = {"op": "par", "ops": ops, "sched": sched}
-        if rng.random() < 0.5:
+        if rng.random() < 0.12:
             step["gates"] = ["mgr.fast.alloc", "mgr.slow.enter"]     # yield points inside the key table (finding A16)
         steps.append(step)
     steps.append({"op": "drain", "n": maxT + 6})
